@@ -1176,27 +1176,25 @@ Proof.
   repeat split; try reflexivity. exists 3%nat. eexists. vm_compute. reflexivity.
 Qed.
 
-(* D29: an instance P(a=1): the copy of its tree is not == to it (PyObj has no __eq__) *)
-Definition g_obj : graph := [(0, PObj "P" [("a", 1)]); (1, PScalar (SInt 1))].
+(* formerly D29 (PyObj had no __eq__) and D30 (the copy of a placeholder was wrapped once more): repaired in
+   /repo; the copies are now equal, also for Python's == *)
+Definition g_obj : graph := [(0, PObj "P" [("a", 1); ("b", 2)]); (1, PScalar (SInt 1)); (2, PList [1; 1])].
 
-Theorem copy_refuted_pyobj :
+Example copy_pyobj_example :
   acyclic g_obj 0 /\
   exists t, run_builder PyObjB o_default g_obj (fuel_bound PyObjB o_default g_obj 0) 0 = Built t
-            /\ copy t = t /\ tree_pyeq (copy t) t = false.
+            /\ copy t = t /\ tree_pyeq (copy t) t = true.
 Proof.
-  split; [exists 2%nat; eexists; vm_compute; reflexivity|].
+  split; [exists 3%nat; eexists; vm_compute; reflexivity|].
   eexists. repeat split; vm_compute; reflexivity.
 Qed.
 
-(* D30: l = [l] with cycles ignored: the copy's placeholder is wrapped once more and never equal *)
 Definition g_self : graph := [(0, PList [0])].
 
-Theorem copy_refuted_placeholder :
+Example copy_placeholder_example :
   exists t, run_builder BasicB o_ignore g_self (fuel_bound BasicB o_ignore g_self 0) 0 = Built t
-            /\ copy t <> t /\ tree_pyeq (copy t) t = false.
-Proof.
-  eexists. repeat split; try (vm_compute; reflexivity). vm_compute. discriminate.
-Qed.
+            /\ has_placeholder t = true /\ copy t = t /\ tree_pyeq (copy t) t = true.
+Proof. eexists. repeat split; vm_compute; reflexivity. Qed.
 
 (* D31: json.build_tree decodes bytes; D32: json.build_tree on l = [l] is a RecursionError *)
 Definition g_bytes : graph := [(0, PList [1]); (1, PScalar (SBytes "ab"))].
